@@ -42,7 +42,7 @@ var binInfo = map[string]struct {
 	"shl": {pShift, "%s um %s Bit nach Links verschoben"}, "shr": {pShift, "%s um %s Bit nach Rechts verschoben"},
 	"plus": {pTerm, "%s plus %s"}, "minus": {pTerm, "%s minus %s"}, "concat": {pTerm, "%s verkettet mit %s"},
 	"mal": {pFactor, "%s mal %s"}, "durch": {pFactor, "%s durch %s"}, "modulo": {pFactor, "%s modulo %s"},
-	"hoch": {pPow, "%s hoch %s"},
+	"hoch":  {pPow, "%s hoch %s"},
 	"index": {pIndex, "%s an der Stelle %s"},
 }
 
